@@ -1,6 +1,6 @@
 """Copy a seeding sub-agent's deliverable (/tmp/seed_<ID>_out) to /verif/seeded/<ID>/ after checking the patch applies to /repo HEAD.
 
-usage: python -m vf.seeded_intake [--round2] C04 C06 ...   (round 2 deliverables /tmp/seed2_<ID>_out are kept as seeded/<ID>b)
+usage: python -m vf.seeded_intake [--round2|--round3] C04 C06 ...   (round 2/3 deliverables /tmp/seed2_<ID>_out, /tmp/seed3_<ID>_out are kept as seeded/<ID>b, <ID>c)
 The confirmation proper (demo on both trees, test suite, checks) is done by `python -m vf.seeded --tests <ids>`.
 """
 
@@ -16,11 +16,13 @@ ROOT = os.path.dirname(os.path.dirname(os.path.abspath(__file__)))
 def main():
     args = sys.argv[1:]
     rnd = ""
-    if args and args[0] == "--round2":
-        rnd, args = "b", args[1:]
+    num = ""
+    if args and args[0] in ("--round2", "--round3"):
+        num = args[0][-1]
+        rnd, args = {"2": "b", "3": "c"}[num], args[1:]
     for pid in args:
         sid = pid + rnd
-        src = f"/tmp/seed2_{pid}_out" if rnd else f"/tmp/seed_{pid}_out"
+        src = f"/tmp/seed{num}_{pid}_out"
         if not all(os.path.exists(os.path.join(src, f)) for f in ("patch.diff", "demo.py", "meta.json")):
             print(sid, "incomplete deliverable")
             continue
